@@ -166,24 +166,46 @@ def arcadrv():
 
 
 def run_stream(harness, hargs, dargs, timeout=3000):
-    """Run harness (cases) | arcadrv (verdicts); returns list of (case, verdict) pairs joined by id."""
+    """Run harness (cases) | arcadrv (verdicts); returns ([(case, verdict)], error text, [crash records]).
+    A harness process that dies (a Go panic on any goroutine kills it) is restarted after the crashing case."""
     fd, path = tempfile.mkstemp(suffix=".jsonl", dir=BUILD)
     os.close(fd)
+    cases, crashes, herr = [], [], None
     try:
-        rc, o, e = sh([harness] + hargs + ["-out", path], env=GOENV, timeout=timeout)
-        cases = []
-        for line in open(path):
-            line = line.strip()
-            if line:
-                try:
-                    cases.append(json.loads(line))
-                except Exception:
-                    pass
-        herr = None
-        if rc != 0:
-            herr = "harness exit %d: %s" % (rc, (o + e)[-2000:])
+        skip = 0
+        for attempt in range(12):
+            part = path + ".part"
+            rc, o, e = sh([harness] + hargs + ["-out", part, "-skip", str(skip)], env=GOENV, timeout=timeout)
+            last_begin = None
+            got = 0
+            if os.path.exists(part):
+                for line in open(part):
+                    line = line.strip()
+                    if not line:
+                        continue
+                    try:
+                        c = json.loads(line)
+                    except Exception:
+                        continue
+                    if c.get("kind") == "begin":
+                        last_begin = c.get("index")
+                        continue
+                    cases.append(c)
+                    got += 1
+                os.remove(part)
+            if rc == 0:
+                break
+            text = (o + e)
+            if last_begin is None:
+                herr = "harness exit %d: %s" % (rc, text[-2000:])
+                break
+            crashes.append({"index": last_begin, "exit": rc, "stderr": text[-3000:], "args": hargs})
+            skip = last_begin + 1
+        with open(path, "w") as f:
+            for c in cases:
+                f.write(json.dumps(c) + "\n")
         verdicts = {}
-        if dargs is not None:
+        if dargs is not None and cases:
             with open(path) as f:
                 p = subprocess.run([arcadrv()] + dargs, stdin=f, stdout=subprocess.PIPE, stderr=subprocess.PIPE,
                                    text=True, timeout=timeout)
@@ -195,9 +217,11 @@ def run_stream(harness, hargs, dargs, timeout=3000):
                     pass
             if p.returncode != 0:
                 herr = (herr or "") + " driver exit %d: %s" % (p.returncode, p.stderr[-1000:])
-        return [(c, verdicts.get(c.get("id"))) for c in cases], herr
+        return [(c, verdicts.get(c.get("id"))) for c in cases], herr, crashes
     finally:
-        os.remove(path)
+        for f in (path, path + ".part"):
+            if os.path.exists(f):
+                os.remove(f)
 
 
 # ---------------------------------------------------------------------------------------------------- findings
